@@ -2,6 +2,8 @@ import MindsVerif.Model.PreLex
 import MindsVerif.Model.Hist
 import MindsVerif.Model.FloatPos
 import MindsVerif.Model.LexBq
+import MindsVerif.Model.CodecDq
+import MindsVerif.Model.LitRender
 import MindsVerif.Model.LexTab
 import MindsVerif.Gen.Lex_sqlite
 import MindsVerif.Gen.Lex_mysql
@@ -16,7 +18,10 @@ ops   :
   hist    <d> <items>     -> items separated by `/`: `A:<parts>` assign, `P` print, `O:<i>` pop, `I:<i>:<part>` insert,
                              `X:<part>` append, `S:<i>:<part>` set item, `E:<parts>` extend, `R` reverse; <parts> = parts
                              separated by `|`, `~` = no part.  Output: per print `<text>><read back>` separated by blanks
-  fpos    - <repr>        -> `<printed text> <plain|sci|noparse> <float|nofloat>` -/
+  fpos    - <repr>        -> `<printed text> <plain|sci|noparse> <float|nofloat>`
+  encdq   - <value>       -> the double-quoted literal `json_to_sql` prints for a string
+  renderx <-|mysql> <rle> -> `renderLiteral` of a long value; stdlexx / mysqllexx - <rle> -> the readers; texts in run-length form
+                             `<count>*<code point>+…` in and out -/
 open MindsVerif MindsVerif.Lex MindsVerif.Gen MindsVerif.Hist
 
 def dec (s : String) : List Char :=
@@ -26,6 +31,23 @@ def enc (s : List Char) : String :=
   if s.isEmpty then "-" else ",".intercalate (s.map fun c => toString c.toNat)
 
 def encL (l : List (List Char)) : String := "[" ++ "|".intercalate (l.map enc) ++ "]"
+
+/-- run-length form for long texts: `<count>*<code point>` joined by `+` (`-` = empty) -/
+def decR (s : String) : List Char :=
+  if s == "-" then [] else
+  (s.splitOn "+").foldr (fun seg acc =>
+    match seg.splitOn "*" with
+    | [n, c] => List.replicate (n.toNat?.getD 0) (Char.ofNat (c.toNat?.getD 0)) ++ acc
+    | _ => acc) []
+
+def encRGo : List Char → Option (Char × Nat) → List String → List String
+  | [], none, acc => acc.reverse
+  | [], some (c, n), acc => (s!"{n}*{c.toNat}" :: acc).reverse
+  | x :: t, none, acc => encRGo t (some (x, 1)) acc
+  | x :: t, some (c, n), acc => if x == c then encRGo t (some (c, n + 1)) acc else encRGo t (some (x, 1)) (s!"{n}*{c.toNat}" :: acc)
+
+def encR (s : List Char) : String :=
+  if s.isEmpty then "-" else "+".intercalate (encRGo s none [])
 
 def decParts (s : String) : List (List Char) :=
   if s == "~" then [] else (s.splitOn "|").map dec
@@ -56,6 +78,12 @@ def handle (kw : Dialect → KwTable) (line : String) : String :=
   match (line.trimAscii.toString.splitOn " ").filter (· ≠ "") with
   | [op, d, a] =>
     if op == "prelex" then enc (PreLex.preLex (dec a))
+    else if op == "encdq" then enc (Codec.jsonStrToSql (dec a))
+    else if op == "renderx" then encR (LitRender.renderLiteral (d == "mysql") (decR a))
+    else if op == "stdlexx" then
+      match LitRender.stdLex (decR a) with | none => "none" | some (v, r) => s!"some {encR v} {encR r}"
+    else if op == "mysqllexx" then
+      match LitRender.mysqlLex (decR a) with | none => "none" | some (v, r) => s!"some {encR v} {encR r}"
     else if op == "pyspace" then
       ",".intercalate (((List.range (a.toNat?.getD 0)).filter PreLex.isPySpaceN).map toString)
     else if op == "hist" then
